@@ -156,6 +156,36 @@ def run_case(case) -> dict:
                 f"alg-specific members in {'protected' if case['in_protected'] else 'recipient'} header): {type(e).__name__}: {e}; token={str(tok)[:300]}"}
     if obj.plaintext != pt:
         f[f"C08:B:plaintext-differs:{tag}"] = f"joserfc decrypts {obj.plaintext[:30]!r}; encrypted {pt[:30]!r}"
+        return f
+    # open - amend - re-seal: the object joserfc returned for a foreign (arbitrarily spelled) token is encrypted again after a protected
+    # member was changed; the reference must open the result and see the amended header
+    if not isinstance(tok, str) and not case["in_protected"] and plan["zip"] is None and len(pt) <= 256000:
+        from joserfc import jwe
+        from gens.jose import jkey
+        try:
+            obj.protected["cty"] = "amended"
+            for r, rec in zip(obj.recipients, plan["recipients"]):
+                kref = gk.key_from_record(rec["key"])
+                r.recipient_key = jkey(kref if kref["kty"] == "oct" else rk.public_of(kref), "dict", kref["kty"] == "oct")
+                r.sender_key = None
+                if r.header:
+                    for m in ("epk", "iv", "tag", "p2s", "p2c"):
+                        r.header.pop(m, None)
+            spriv = jkey(gk.key_from_record(plan["sender"]), "dict", True) if plan["sender"] else None
+            tok2 = jwe.encrypt_json(obj, None, algorithms=jp.ALL_NAMES, sender_key=spriv)
+        except Exception as e:
+            f[f"C08:reseal-raises:{exc_key(e)}"] = f"decrypt_json -> amend protected header -> encrypt_json: {type(e).__name__}: {e}"
+            return f
+        try:
+            r2 = jp.ref_decrypt(tok2, plan, strict=False, limit=None)
+            wire = json.loads(rb.decode(tok2["protected"]))
+            if r2["plaintext"] != pt:
+                f["C08:reseal:plaintext-differs"] = "the re-sealed token decrypts to other data"
+            elif wire.get("cty") != "amended":
+                f["C08:reseal:amended-header-not-on-the-wire"] = f"protected header on the wire after amending cty: {wire!r}"
+        except rjwe.Reject as e:
+            f[f"C08:reseal:reference-rejects:{str(e)[:24]}"] = (f"a foreign token (spelling {case['spelling'][0]}) opened by joserfc, amended and encrypted again "
+                                                               f"is refused by the reference: {e}")
     return f
 
 
